@@ -46,22 +46,24 @@ IsAcquired(c, l) == LET e == TableAt(applied[c])[l] IN e.c = c /\ now - e.t < U
 Considers(c, l) == cst[c][l].s = "held" /\ IsAcquired(c, l)
 
 Init == /\ now = 0 /\ queue = [c \in Clients |-> <<>>] /\ log = <<>> /\ applied = [c \in Clients |-> 0]
-        /\ cst = [c \in Clients |-> [l \in Locks |-> [s |-> "idle", t0 |-> 0]]] /\ acts = <<>>
+        /\ cst = [c \in Clients |-> [l \in Locks |-> [s |-> "idle", t0 |-> 0, re |-> FALSE]]] /\ acts = <<>>
 
 Act(a) == acts' = IF Emit THEN Append(acts, a) ELSE acts
 
 Tick == now < MaxNow /\ now' = now + 1 /\ Act(<<"tick">>) /\ UNCHANGED <<queue, log, applied, cst>>
 
+(* (also by a client that holds the lock already: the entry is refreshed, or re-created if it had expired) *)
 TryAcquire(c, l) ==
-  /\ cst[c][l].s = "idle" /\ Room
+  /\ cst[c][l].s \in {"idle", "held"} /\ ~cst[c][l].re /\ Room
   /\ queue' = [queue EXCEPT ![c] = Append(@, [k |-> "acq", l |-> l, c |-> c, t |-> now])]
-  /\ cst' = [cst EXCEPT ![c][l] = [s |-> "wait", t0 |-> now]]
+  \* a client that holds the lock keeps considering it held while its second request is on its way (re: t0 is that request's)
+  /\ cst' = [cst EXCEPT ![c][l] = IF @.s = "held" THEN [s |-> "held", t0 |-> now, re |-> TRUE] ELSE [s |-> "wait", t0 |-> now, re |-> FALSE]]
   /\ Act(<<"tryAcquire", c, l>>) /\ UNCHANGED <<now, log, applied>>
 
 Release(c, l) ==
-  /\ cst[c][l].s = "held" /\ Room
+  /\ cst[c][l].s = "held" /\ ~cst[c][l].re /\ Room
   /\ queue' = [queue EXCEPT ![c] = Append(@, [k |-> "rel", l |-> l, c |-> c])]
-  /\ cst' = [cst EXCEPT ![c][l] = [s |-> "idle", t0 |-> 0]]
+  /\ cst' = [cst EXCEPT ![c][l] = [s |-> "idle", t0 |-> 0, re |-> FALSE]]
   /\ Act(<<"release", c, l>>) /\ UNCHANGED <<now, log, applied>>
 
 (* releasing a lock one does not hold *)
@@ -86,14 +88,15 @@ Apply(c) ==
   /\ applied[c] < Len(log)
   /\ LET m == log[applied[c] + 1]
          r == ApplyCmd(TableAt(applied[c]), m)
-         own == m.k = "acq" /\ m.c = c /\ cst[c][m.l].s = "wait" /\ cst[c][m.l].t0 = m.t
+         own == m.k = "acq" /\ m.c = c /\ cst[c][m.l].t0 = m.t
+                /\ (cst[c][m.l].s = "wait" \/ (cst[c][m.l].s = "held" /\ cst[c][m.l].re))
          late == 2 * (now - m.t) > U
      IN /\ applied' = [applied EXCEPT ![c] = @ + 1]
         /\ IF own
            THEN IF r.res /\ late
-                THEN /\ cst' = [cst EXCEPT ![c][m.l] = [s |-> "idle", t0 |-> 0]]
+                THEN /\ cst' = [cst EXCEPT ![c][m.l] = [s |-> "idle", t0 |-> 0, re |-> FALSE]]
                      /\ queue' = [queue EXCEPT ![c] = Append(@, [k |-> "rel", l |-> m.l, c |-> c])]
-                ELSE /\ cst' = [cst EXCEPT ![c][m.l] = [s |-> IF r.res THEN "held" ELSE "idle", t0 |-> 0]]
+                ELSE /\ cst' = [cst EXCEPT ![c][m.l] = [s |-> IF r.res THEN "held" ELSE "idle", t0 |-> 0, re |-> FALSE]]
                      /\ queue' = queue
            ELSE UNCHANGED <<cst, queue>>
   /\ Act(<<"apply", c>>) /\ UNCHANGED <<now, log>>
